@@ -370,8 +370,43 @@ def r8(F, rep):
         raise AnalysisBroken("C14-R8: no per-iteration search flag found in the multiple-walker code (update_replicas_registry expected)")
 
 
+def r9(F, rep):
+    rep.rule("C14-R9", "each walker's hills go onto that walker's grids: in every project_hills() call whose hills (first argument) "
+                       "are taken from a peer `replicas[i]`, the grids passed as targets belong to the same peer; hills taken from "
+                       "this bias go onto grids of this bias (members or locals built here)")
+    import re as _re
+
+    def owner(f, a):
+        k = X.re_strip(X.key(a, f))
+        mo = _re.search(r"op\[\]\(this\.replicas, ([^)]*)\)", k)
+        if mo:
+            return "replicas[%s]" % mo.group(1)
+        return "this" if "this." in k else "local"
+    n = 0
+    for f in F.funcs.values():
+        if f.cls != "colvarbias_meta" or f.body is None:
+            continue
+        for c in X.calls(f):
+            if X.callee_name(c) != "project_hills" or len(X.call_args(c)) < 3:
+                continue
+            a = X.call_args(c)
+            src = owner(f, a[0])
+            tg = [owner(f, x) for x in a[2:4] if C._lit(X.strip(x)) is None]
+            n += 1
+            if src.startswith("replicas["):
+                ok = all(t == src for t in tg)
+            else:
+                ok = all(not t.startswith("replicas[") for t in tg)
+            rep.add("C14-R9", "%s|project_hills(%s)" % (f.q, src), f.loc(c), "%s projects hills of `%s` onto grids of %s" % (f.q, src, sorted(set(tg))), ok,
+                    detail="a peer's hills written onto this walker's own grids end up in its state file and partial free energy: they are "
+                           "counted again whenever a state is read back", func=f.q)
+    if n < 3:
+        raise AnalysisBroken("C14-R9: only %d project_hills() calls found" % n)
+
+
 def run(F, rep, tier):
     r8(F, rep)
+    r9(F, rep)
     r1(F, rep)
     r2_r3(F, rep)
     r4(F, rep)
